@@ -269,6 +269,87 @@ def register(generators, gm):
             raise gm.GenError("library source files changed: new %s, gone %s" % (sorted(now - have), sorted(have - now)))
         return "(* GENERATED by tools/gen_shape.py -- the set of library source files is the recorded one *)\n"
     generators["Shape_files"] = gen_files
+    register_manifests(generators, gm)
+
+
+# ---------------------------------------------------------------------------------------------------
+# Cargo manifests: features and dependencies a model silently assumes, and the versions the harness links
+
+def manifest_skeleton(text):
+    """the [features], [dependencies] and [target.*.dependencies] tables of a Cargo.toml (comments and blank lines
+    dropped; [package], [dev-dependencies], [lints], [[bench]], .. are not part of it)"""
+    out = []
+    keep = False
+    for line in text.split("\n"):
+        l = line.split("#", 1)[0].rstrip() if not line.strip().startswith(('"', "'")) else line.rstrip()
+        if not l.strip():
+            continue
+        if l.lstrip().startswith("["):
+            name = l.strip().strip("[]").strip()
+            keep = name in ("features", "dependencies") or (name.startswith("target.") and name.endswith(".dependencies")) or \
+                name.startswith("dependencies.") or name.startswith("features.")
+            if keep:
+                out.append(l.strip())
+            continue
+        if keep:
+            out.append("  " + " ".join(l.split()))
+    return "\n".join(out) + "\n"
+
+
+def lock_packages(text):
+    import re
+    out = {}
+    for m in re.finditer(r'\[\[package\]\]\nname = "([^"]+)"\nversion = "([^"]+)"', text):
+        out.setdefault(m.group(1), set()).add(m.group(2))
+    return out
+
+
+def crates(repo):
+    return sorted(d for d in os.listdir(os.path.join(repo, "crates")) if os.path.exists(os.path.join(repo, "crates", d, "Cargo.toml")))
+
+
+def cargo_gen_name(crate):
+    return "Shape_cargo__" + crate.replace("-", "_")
+
+
+def cargo_record(crate):
+    return os.path.join(RECORDS, "cargo__" + crate.replace("-", "_") + ".toml.txt")
+
+
+def register_manifests(generators, gm):
+    def mk(crate):
+        def gen():
+            got = manifest_skeleton(gm.read("crates/%s/Cargo.toml" % crate))
+            want = open(cargo_record(crate), encoding="utf-8").read()
+            if got != want:
+                d = [l for l in difflib.unified_diff(want.split("\n"), got.split("\n"), "recorded", "source", lineterm="", n=0)
+                     if not l.startswith(("---", "+++", "@@"))]
+                raise gm.GenError("crates/%s/Cargo.toml: features / dependencies differ from the ones the models and harnesses were written "
+                                  "against: %s" % (crate, " | ".join(d[:8])))
+            return "(* GENERATED by tools/gen_shape.py -- features and dependencies of crates/%s/Cargo.toml equal the record *)\n" % crate
+        return gen
+    for crate in crates(gm.REPO) if os.path.isdir(os.path.join(gm.REPO, "crates")) else []:
+        if os.path.exists(cargo_record(crate)):
+            generators[cargo_gen_name(crate)] = mk(crate)
+
+    def gen_lock():
+        """every third-party package the harness crates link is linked in a version /repo/Cargo.lock also resolves to:
+        the hand models of third-party code (utf8parse, cansi, roff, the styling libraries) and the differential runs are
+        about the dependency versions the repository itself pins"""
+        repo = lock_packages(gm.read("Cargo.lock"))
+        hdir = os.path.join(HERE, "..", "harness")
+        bad = []
+        for h in sorted(os.listdir(hdir)):
+            lp = os.path.join(hdir, h, "Cargo.lock")
+            if not os.path.exists(lp):
+                continue
+            for name, vs in sorted(lock_packages(open(lp, encoding="utf-8").read()).items()):
+                if name in repo and not vs <= repo[name]:
+                    bad.append("%s links %s %s, /repo/Cargo.lock has %s" % (h, name, ",".join(sorted(vs)), ",".join(sorted(repo[name]))))
+        if bad:
+            raise gm.GenError("dependency versions differ between the harness lock files and /repo/Cargo.lock: " + " | ".join(bad[:6]))
+        return "(* GENERATED by tools/gen_shape.py -- the harness lock files agree with /repo/Cargo.lock *)\n"
+    generators["Shape_lock"] = gen_lock
 
 
 def main(argv):
@@ -284,6 +365,9 @@ def main(argv):
         for rel in lib_files(gm.REPO):
             with open(record_path(rel), "w", encoding="utf-8") as f:
                 f.write("// %s\n" % rel + skeleton(gm.read(rel)))
+        for crate in crates(gm.REPO):
+            with open(cargo_record(crate), "w", encoding="utf-8") as f:
+                f.write(manifest_skeleton(gm.read("crates/%s/Cargo.toml" % crate)))
         print("recorded %d files" % len(lib_files(gm.REPO)))
         return 0
     print(__doc__)
